@@ -291,10 +291,10 @@ def rule_literal_provenance(ctx, kind=None):
     for fn in sorted(fns, key=lambda b: b.id):
         bodies = prog.with_closures(fn)
         enc = set()
-        for b in bodies:
-            for s in b.calls():
-                if callee_matches(callee_of(s), ENCODE):
-                    enc |= _fw_identity(prog, b, s.node["args"][1])
+        for es, eb, ename, fwop in encodings_in(prog, fn):
+            enc |= _fw_identity(prog, eb, fwop)
+        if encoding_helper_summary(prog, fn):
+            continue  # the encoding helper itself: judged at its call sites
         for b in bodies:
             k = 0
             if scope is not None and b.id not in scope:
@@ -326,10 +326,8 @@ def rule_literal_provenance(ctx, kind=None):
                         for cs in prog.callers_of(fn):
                             cfn = prog.enclosing_fn(cs.body)
                             cenc = set()
-                            for cb in prog.with_closures(cfn):
-                                for es in cb.calls():
-                                    if callee_matches(callee_of(es), ENCODE):
-                                        cenc |= _fw_identity(prog, cb, es.node["args"][1])
+                            for es, cb, ename, fwop in encodings_in(prog, cfn):
+                                cenc |= _fw_identity(prog, cb, fwop)
                             if not cenc or any(x.startswith("?") for x in cenc):
                                 continue
                             for k in sorted(params):
@@ -409,6 +407,53 @@ def _solver_creations(prog, body, op, depth=0):
             continue
         else:
             out.append(("?" + o.kind, body, None))
+    return out
+
+
+_sum_cache = {}
+
+
+def encoding_helper_summary(prog, t):
+    """for a local function that creates a SAT solver with the factory, encodes a framework it is given into it and returns it
+    (`fn encoded_solver_for(&self, cc_af) -> Rc<RefCell<Box<dyn SatSolver>>>`): [(encode method name, framework parameter index)];
+    [] when the function is not of that shape"""
+    key = (id(prog), t.id)
+    if key in _sum_cache:
+        return _sum_cache[key]
+    out = []
+    if t.kind != "closure" and "dyn sat::sat_solver::SatSolver" in t.ret_ty:
+        rseen, rcalls, _ = data_deps(t, {"l": 0, "p": []})
+        for s in t.calls():
+            if not callee_matches(callee_of(s), ENCODE):
+                continue
+            cr = _solver_creations(prog, t, s.node["args"][2])
+            if not cr or any(x[0] != "site" for x in cr):
+                continue
+            # the created solver is what is returned
+            if not any(any((c.bb, c.si) == (x[2].bb, x[2].si) for c in rcalls) for x in cr):
+                continue
+            for o in origins(t, s.node["args"][1], transparent=("core::ops::deref::Deref::deref",)):
+                if o.kind == "param" and not o.fields:
+                    out.append((callee_decl(callee_of(s)).rsplit("::", 1)[-1], o.data))
+    _sum_cache[key] = out
+    return out
+
+
+def encodings_in(prog, fn):
+    """[(site, body, encode method name, framework operand)] for the encodings a function performs: direct `encode_constraints*`
+    calls and calls of encoding helpers (see encoding_helper_summary), in the function and its closures"""
+    out = []
+    for b in prog.with_closures(fn):
+        for s in b.calls():
+            c = callee_of(s)
+            if callee_matches(c, ENCODE):
+                out.append((s, b, callee_decl(c).rsplit("::", 1)[-1], s.node["args"][1]))
+                continue
+            t = prog.body_for_callee(c, b) if c and c.get("decl") != "<indirect>" else None
+            if t is not None and t is not fn:
+                for name, k in encoding_helper_summary(prog, t):
+                    if k - 1 < len(s.node["args"]):
+                        out.append((s, b, name, s.node["args"][k - 1]))
     return out
 
 
@@ -509,9 +554,19 @@ def rule_range_encoding(ctx):
                 continue
             n += 1
             anchor = "%s|range-computer#%d" % (b.id, n)
-            want = {(x[2].body.id, x[2].bb) for x in _solver_creations(prog, b, sol_args[0]) if x[0] == "site"}
+            crs = [x for x in _solver_creations(prog, b, sol_args[0]) if x[0] == "site"]
+            want = {(x[2].body.id, x[2].bb) for x in crs}
             if not want:
                 r.ok(anchor, "solver passed in by the caller: not decided here", cs.loc())
+                continue
+            # created and filled by an encoding helper (`self.encoded_solver_for(cc_af)`)
+            helper_kinds = []
+            for x in crs:
+                t = prog.body_for_callee(callee_of(x[2]), x[1]) if callee_of(x[2]) and callee_of(x[2]).get("decl") != "<indirect>" else None
+                if t is not None:
+                    helper_kinds += [nm for nm, _ in encoding_helper_summary(prog, t)]
+            if helper_kinds:
+                r.check(all(nm == "encode_constraints_and_range" for nm in helper_kinds), anchor, "plain-encoding", "the solver comes from a helper that fills it with encode_constraints_and_range", "the range-based computer runs on a solver filled by `encode_constraints` (no range definitions): its range maximisation is meaningless", cs.loc())
                 continue
             encs = []
             for x in prog.with_closures(fn):
@@ -525,4 +580,4 @@ def rule_range_encoding(ctx):
                 continue
             bad = [s for s in encs if not callee_matches(callee_of(s), r"encode_constraints_and_range$")]
             r.check(not bad, anchor, "plain-encoding", "the solver was filled by encode_constraints_and_range", "the range-based computer runs on a solver filled by `encode_constraints` (no range definitions): its range maximisation is meaningless", (bad[0].loc() if bad else cs.loc()))
-    r.floor(n, 3, "creations of a range-based maximal-extension computer")
+    r.floor(n, 2, "creations of a range-based maximal-extension computer")
